@@ -1,4 +1,5 @@
 //! simh: drives the real nexosim crate through its public API.
+mod bench;
 mod seqops;
 
 use std::io::{BufRead, Write};
@@ -17,6 +18,47 @@ fn main() {
                 match r {
                     Ok(s) => writeln!(out, "{}", s).unwrap(),
                     Err(_) => writeln!(out, "PANIC").unwrap(),
+                }
+            }
+        }
+        "bench" => {
+            // one sim case per line; each runs in its own thread under a watchdog: a call that
+            // never returns is an observation ("HANG"), after which the process exits (the
+            // orchestrator restarts the runner on the remaining cases).
+            std::panic::set_hook(Box::new(|_| {}));
+            let timeout_ms: u64 = args.get(2).and_then(|s| s.parse().ok()).unwrap_or(15000);
+            let stdin = std::io::stdin();
+            let stdout = std::io::stdout();
+            for line in stdin.lock().lines() {
+                let line = line.unwrap();
+                let (tx, rx) = std::sync::mpsc::channel();
+                let l2 = line.clone();
+                std::thread::spawn(move || {
+                    let r = std::panic::catch_unwind(|| {
+                        let w: Vec<&str> = l2.split_whitespace().collect();
+                        if w.is_empty() || w[0] != "sim" {
+                            return "ERR not-a-sim-case".to_string();
+                        }
+                        let case = bench::parse(&w[1..]);
+                        bench::run(&case)
+                    });
+                    let _ = tx.send(match r {
+                        Ok(s) => s,
+                        Err(_) => "HARNESS-PANIC".to_string(),
+                    });
+                });
+                match rx.recv_timeout(std::time::Duration::from_millis(timeout_ms)) {
+                    Ok(s) => {
+                        let mut out = stdout.lock();
+                        writeln!(out, "{}", s).unwrap();
+                        out.flush().unwrap();
+                    }
+                    Err(_) => {
+                        let mut out = stdout.lock();
+                        writeln!(out, "HANG").unwrap();
+                        out.flush().unwrap();
+                        std::process::exit(3);
+                    }
                 }
             }
         }
